@@ -1,10 +1,24 @@
 /-
-  C17 — LED feedback shows the device's actual state.  Theorems about `Hidi.Led.frame` and `Dev.midiIn`.
+  C17 — LED feedback shows the device's actual state.  Theorems about `Hidi.Led.frame` (checked writes) and the MIDI-input
+  tracker `Dev.midiIn`.
+
+  * `C17_frame_total`   : for every state, every configuration and every LED layout (any order, any subset, unknown
+                          names, no LEDs at all) the frame is a list of exactly one colour per LED — no index outside the
+                          frame is ever written (the unchecked code crashed on an empty layout: `C17_unchecked_crashes`);
+  * `C17_layout`        : an action whose key is unbound, or whose key has no LED, paints nothing; otherwise it paints
+                          exactly the LED of its key (`C17_unchecked_hits_led0` is what the unchecked code did);
+  * `C17_active`        : every LED of a key whose base note + transposition equals the pitch recorded for a held key shows
+                          the active colour — whatever else was painted before (last paint wins, and every later paint of
+                          that pass is the same colour);
+  * `C17_midi_in_*`     : Note Off, or Note On with velocity 0, removes the note from the MIDI-input tracker; Note On with
+                          velocity > 0 adds it; the panic action clears the tracker;
+  * `C17_channel_colours` : the sixteen channel colours (exact table);
+  * `C17_source_facts`  : the two facts regenerated from the sources that select the checked behaviour.
 -/
-import Hidi.Led
+import HidiProofs.LedLemmas
 import Hidi.Gen.Evdev
 namespace Hidi.Props.C17
-open Hidi Hidi.Led
+open Hidi Hidi.Led Hidi.LedLemmas Hidi.EngineSim
 
 /-- source facts regenerated from open_rgb.go / events.go: every frame write for action keys and strip LEDs goes through the
     checked setter; a MIDI-input Note On with velocity 0 is treated as Note Off -/
@@ -12,5 +26,122 @@ theorem C17_source_facts : Gen.ledUncheckedWrites = 0 ∧ Gen.midiInVelocityZero
 
 /-- LED names are distinct, so `LedNameToKey` (built by ranging over a Go map) is well defined -/
 theorem C17_led_names_distinct : (Gen.keyToLedName.map (·.2)).Nodup := by decide
+
+/-- **any layout**: the frame always has exactly one colour per LED; nothing outside it is written -/
+theorem C17_frame_total (d : Dev) (devName : String) (leds : List String) (shifted : RGB × RGB × RGB)
+    (hm : d.curMap.isSome = true) :
+    ∃ l, frame true d devName leds shifted = .ok l ∧ l.length = leds.length := by
+  unfold frame
+  cases hc : d.curMap with
+  | none => rw [hc] at hm; cases hm
+  | some m =>
+    simp only
+    have h1 := frameExt_isOk d leds m (frameBase_isOk d devName leds shifted m)
+    exact foldl_isOk _ (fun f p hf => paintNote_isOk leds rfl m _ _ hf) _ _ h1
+
+def exMap : Mapping := { name := "Piano", midi := [], analog := [], dz := [], defDz := [] }
+def exCfg0 : Config :=
+  { maps := [exMap], actions := [], exitSeq := [], mode := .off, defOct := 0, defSemi := 0, defCh := 1, defMap := 0,
+    vel := 64, axes := [] }
+
+/-- the unchecked code on a controller without LEDs: a Go panic (index out of range) — the crash repaired in the repository -/
+theorem C17_unchecked_crashes : frame false (Dev.init exCfg0) "kbd" [] ({}, {}, {}) = .panic := by decide
+
+/-- **layout**: with checked writes an action paints at most the LED of its own key -/
+theorem C17_layout (cfg : Config) (im : List (Nat × Nat)) (l : List RGB) (a : Action) (c : RGB) :
+    paintAction true cfg im (.ok l) a c =
+      match actionCode cfg a with
+      | none => .ok l                                   -- the action is not bound to any key
+      | some code =>
+        match alookup code im with
+        | none => .ok l                                 -- its key has no LED
+        | some i => if i < l.length then .ok (l.set i c) else .ok l := by
+  unfold paintAction
+  simp only [if_true]
+  cases actionCode cfg a with
+  | none => rfl
+  | some code => simp only; cases alookup code im <;> rfl
+
+/-- what the unchecked code did with an unbound action: it wrote LED 0 -/
+theorem C17_unchecked_hits_led0 (cfg : Config) (im : List (Nat × Nat)) (l : List RGB) (a : Action) (c : RGB)
+    (hunbound : actionCode cfg a = none) (h0 : alookup 0 im = none) (hl : 0 < l.length) :
+    paintAction false cfg im (.ok l) a c = .ok (l.set 0 c) := by
+  unfold paintAction
+  simp [hunbound, h0, setAt, hl]
+
+/-- **active**: every LED of a key at the pitch of a held key shows the active colour -/
+theorem C17_active (d : Dev) (devName : String) (leds : List String) (shifted : RGB × RGB × RGB) (m : Mapping)
+    (hm : d.curMap = some m) (held : Code × (Nat × Nat)) (hheld : held ∈ d.noteTr)
+    (code : Nat) (hcode : code ∈ keysWithNote m (baseOf held.2.1 (d.semitone + d.octave * 12)))
+    (i : Nat) (hi : alookup code (indexMap leds) = some i) :
+    ∃ l, frame true d devName leds shifted = .ok l ∧ l[i]? = some d.cfg.colors.active := by
+  unfold frame
+  rw [hm]
+  simp only
+  have h1 := frameExt_isOk d leds m (frameBase_isOk d devName leds shifted m)
+  obtain ⟨l0, e0, hl0⟩ := h1
+  have hg : Good leds.length [] d.cfg.colors.active (frameExt d leds m (frameBase true d devName leds shifted m)) :=
+    ⟨l0, e0, hl0, by intro j hj; cases hj⟩
+  obtain ⟨S', ⟨l, e1, hl, hs⟩, -, g3⟩ :=
+    foldNotes_good leds rfl m d.cfg.colors.active (fun (p : Code × (Nat × Nat)) => baseOf p.2.1 (d.semitone + d.octave * 12))
+      d.noteTr [] _ hg
+  refine ⟨l, e1, ?_⟩
+  exact hs i (g3 held hheld code hcode i hi) (indexMap_lt leds code i hi)
+
+/-! ### the MIDI-input tracker -/
+
+theorem C17_midi_in_note_off (d : Dev) (ch note vel : Nat) (hch : ch < 16) :
+    (d.midiIn (0x80 + ch) note vel).ext = serase (ch, note) d.ext := by
+  unfold Dev.midiIn
+  have h1 : (0x80 + ch) / 16 = 8 := by omega
+  have h2 : (0x80 + ch) % 16 = ch := by omega
+  have h3 : (0x80 + ch) ≥ 128 := by omega
+  simp only [h1, h2]
+  have hc : (8 ≠ 15 ∧ 0x80 + ch ≥ 128) := ⟨by decide, h3⟩
+  rw [if_pos hc]
+  have e1 : ¬ (8 * 16 = stNoteOn) := by decide
+  have e2 : 8 * 16 = stNoteOff := by decide
+  rw [if_neg e1, if_pos e2]
+
+theorem C17_midi_in_note_on_zero (d : Dev) (ch note : Nat) (hch : ch < 16) :
+    (d.midiIn (0x90 + ch) note 0).ext = serase (ch, note) d.ext := by
+  unfold Dev.midiIn
+  have h1 : (0x90 + ch) / 16 = 9 := by omega
+  have h2 : (0x90 + ch) % 16 = ch := by omega
+  have h3 : (0x90 + ch) ≥ 128 := by omega
+  simp only [h1, h2]
+  have hc : (9 ≠ 15 ∧ 0x90 + ch ≥ 128) := ⟨by decide, h3⟩
+  rw [if_pos hc]
+  have e1 : 9 * 16 = stNoteOn := by decide
+  rw [if_pos e1, if_pos trivial]
+
+theorem C17_midi_in_note_on (d : Dev) (ch note vel : Nat) (hch : ch < 16) (hv : 0 < vel) :
+    (d.midiIn (0x90 + ch) note vel).ext = sinsert (ch, note) d.ext := by
+  unfold Dev.midiIn
+  have h1 : (0x90 + ch) / 16 = 9 := by omega
+  have h2 : (0x90 + ch) % 16 = ch := by omega
+  have h3 : (0x90 + ch) ≥ 128 := by omega
+  have h4 : ¬ vel = 0 := by omega
+  simp only [h1, h2]
+  have hc : (9 ≠ 15 ∧ 0x90 + ch ≥ 128) := ⟨by decide, h3⟩
+  rw [if_pos hc]
+  have e1 : 9 * 16 = stNoteOn := by decide
+  rw [if_pos e1, if_neg h4]
+
+/-- after Note Off (or Note On with velocity 0) the note is not highlighted any more, whatever happened before -/
+theorem C17_midi_in_cleared (d : Dev) (ch note : Nat) (hch : ch < 16) :
+    (ch, note) ∉ (d.midiIn (0x80 + ch) note 0).ext ∧ (ch, note) ∉ (d.midiIn (0x90 + ch) note 0).ext := by
+  rw [C17_midi_in_note_off d ch note 0 hch, C17_midi_in_note_on_zero d ch note hch]
+  constructor <;> (intro h; exact (mem_serase.mp h).2 rfl)
+
+/-- the panic action clears the MIDI-input tracker (all channels) -/
+theorem C17_panic_clears (d : Dev) : (d.invokePress .panic).1.ext = [] := rfl
+
+/-- the sixteen channel colours (`colorful.Hsv(45·ch + 30, 1, 1)` scaled to bytes) -/
+theorem C17_channel_colours :
+    (List.range 16).map chanColor =
+      [⟨255, 127, 0⟩, ⟨191, 255, 0⟩, ⟨0, 255, 0⟩, ⟨0, 255, 191⟩, ⟨0, 127, 255⟩, ⟨63, 0, 255⟩, ⟨255, 0, 255⟩, ⟨255, 0, 63⟩,
+       ⟨255, 127, 0⟩, ⟨191, 255, 0⟩, ⟨0, 255, 0⟩, ⟨0, 255, 191⟩, ⟨0, 127, 255⟩, ⟨63, 0, 255⟩, ⟨255, 0, 255⟩, ⟨255, 0, 63⟩] := by
+  decide
 
 end Hidi.Props.C17
